@@ -502,22 +502,65 @@ def r6_time_search(cx):
     cx.require(ok, cmps[0] if cmps else fn, "a stamped line is included iff its time is at or after the requested time (>=)", construct=short(cmps[0]) if cmps else "(no comparison)")
     if not cmps:
         return
-    iff = enclosing(cmps[0], ast.If)
-    t_as = [a for a in iff.body if isinstance(a, ast.Assign) and U(a.targets[0]) == "including_lines"]
-    f_as = [a for a in iff.orelse if isinstance(a, ast.Assign) and U(a.targets[0]) == "including_lines"]
-    ys = [y for y in walk_body(iff.body) if isinstance(y, ast.Yield)]
-    ok = len(t_as) == 1 and U(t_as[0].value) == "True" and len(f_as) == 1 and U(f_as[0].value) == "False" and len(ys) == 1 and U(ys[0].value) == "self._parse_line(line)" \
-        and not [y for y in walk_body(iff.orelse) if isinstance(y, ast.Yield)]
-    cx.require(ok, iff, "at/after: start including and yield the line; before: stop including and yield nothing", construct="if logstamp >= timestamp: including=True; yield ... else: including=False")
-    outer = enclosing(iff, ast.If)
-    while outer is not None and "match" != U(outer.test):
-        outer = enclosing(outer, ast.If)
-    ok = outer is not None
-    if ok:
-        ys2 = [y for y in walk_body(outer.orelse) if isinstance(y, ast.Yield)]
-        ok = len(ys2) == 1 and set(guard_texts(ys2[0], stop=outer)) == set([("including_lines", True)]) and U(ys2[0].value) == "self._parse_line(line)"
-    cx.require(ok, outer if outer is not None else fn, "a line without a time stamp is yielded iff lines are currently being included (continuation line)",
-               construct="else: if including_lines: yield self._parse_line(line)")
+    # path rule over one iteration of the line loop.  State: including_lines (old value / True / False / 'the comparison').
+    #   stamped line (match):    afterwards including_lines == (logstamp >= timestamp); the line is yielded iff that holds
+    #   unstamped line:          including_lines unchanged; the line is yielded iff it was being included
+    lp0 = [x for x in walk_body(fn.body) if isinstance(x, ast.For) and U(x.iter) == "self.lines"]
+    if not lp0:
+        cx.bad(fn, "get_after walks self.lines", construct="(no loop over self.lines)")
+        return
+    CMP = ("logstamp >= timestamp", "timestamp <= logstamp")
+    try:
+        pths = feat.paths(lp0[0].body)
+    except ValueError:
+        cx.unknown(lp0[0], "too many paths through the line loop")
+        return
+    bad_stamped, bad_plain, n_st, n_pl = None, None, 0, 0
+    for trail, end in pths:
+        inc, cmp_pol, old_pol, m_pol, ys = "old", None, None, None, 0
+        for item in trail:
+            if item[0] == "cond":
+                t, pol = item[1], item[2]
+                if t == "match":
+                    m_pol = pol
+                elif t in CMP:
+                    cmp_pol = pol
+                elif t in ("logstamp < timestamp", "timestamp > logstamp"):
+                    cmp_pol = not pol
+                elif t == "including_lines":
+                    if inc == "CMP":
+                        cmp_pol = pol
+                    elif inc == "old":
+                        old_pol = pol
+                continue
+            st = item[1]
+            for y in [x for x in ast.walk(st) if isinstance(x, (ast.Yield, ast.YieldFrom))]:
+                ys += 1 if U(getattr(y, "value", None)) == "self._parse_line(line)" else 100
+            if isinstance(st, ast.Assign) and any(U(t_) == "including_lines" for t_ in st.targets):
+                v = U(st.value)
+                inc = "T" if v == "True" else "F" if v == "False" else "CMP" if v in CMP else "UNK"
+        if end not in ("fall", "continue"):
+            bad_plain = bad_plain or "a path leaves the loop (%s)" % end
+            continue
+        if m_pol is None:
+            if ys or inc != "old":
+                bad_plain = bad_plain or "a line skipped before the time-stamp search is yielded or changes the state"
+            continue
+        if m_pol:
+            n_st += 1
+            ok_ = cmp_pol is not None and inc in ("CMP", "T" if cmp_pol else "F") and ys == (1 if cmp_pol else 0)
+            if not ok_:
+                bad_stamped = bad_stamped or "stamped line, %s: including_lines=%s, yields=%d" % (
+                    "at/after" if cmp_pol else "before" if cmp_pol is not None else "comparison not tested", {"old": "unchanged", "T": "True", "F": "False", "CMP": "the comparison", "UNK": "?"}[inc], ys)
+        else:
+            n_pl += 1
+            ok_ = inc == "old" and ((ys == 1 and old_pol is True) or (ys == 0 and old_pol is False))
+            if not ok_:
+                bad_plain = bad_plain or "unstamped line: including_lines %s, tested %s, yields=%d" % ("unchanged" if inc == "old" else "changed", old_pol, ys)
+    cx.require(bad_stamped is None and n_st >= 2, lp0[0], "at/after: start including and yield the line; before: stop including and yield nothing (every path of a stamped line)",
+               construct=bad_stamped or "%d paths of a stamped line" % n_st)
+    cx.require(bad_plain is None and n_pl >= 2, lp0[0], "a line without a time stamp is yielded iff lines are currently being included (continuation line); the state is left alone",
+               construct=bad_plain or "%d paths of an unstamped line" % n_pl)
     md = [a for a in walk_body(fn.body) if isinstance(a, ast.Assign) and U(a.targets[0]) == "match"]
     ok = len(md) == 1 and U(md[0].value) == "time_re.search(line)"
     if ok:
